@@ -28,7 +28,7 @@
    content indentation 0, scalars without content lines, header comments, CR / CR LF, the end of the input without a
    final line feed, buffered back-ends.  [C05_full] itself is refuted on the faithful model by three input classes
    (known_findings_c05.jsonl); the witnesses are theorems below. *)
-From Coq Require Import List NArith ZArith Bool Arith.
+From Coq Require Import List NArith ZArith Bool Arith Lia.
 Import ListNotations.
 Require Import Parser SBase SPrim SDir SScalar SFetch Pipe SBuf Drivers BlockScalar BlockScalarProofs.
 Open Scope N_scope.
@@ -108,6 +108,8 @@ Theorem C05_literal_partial : forall (s : sc strin) F c (explicit : option nat) 
 Proof. exact literal_block_scalar_lines. Qed.
 Print Assumptions C05_literal_partial.
 
+From Coq Require Import String.
+
 (* the hypotheses of T4 are satisfiable, and the conclusion is not vacuous: "|-\n  x\n\n   y\n \nz" at top level *)
 Example C05_literal_partial_instance :
   exists sp s', scan_block_scalar str_ops 40 true (init_sc {| si_chars := L "|-/  x//   y/ /z"; si_look := 0 |})
@@ -117,10 +119,11 @@ Proof.
   - reflexivity.
   - reflexivity.
   - discriminate.
-  - repeat constructor; cbn; try discriminate; try (left; discriminate); try (right; discriminate); auto with arith.
-  - cbn. auto with arith.
+  - repeat (apply Forall_cons || apply Forall_nil); unfold line_ok, nobreak; cbn;
+      repeat split; try discriminate; try (right; discriminate); try (left; discriminate); try lia; repeat constructor.
+  - cbn. lia.
   - reflexivity.
-  - auto with arith.
+  - lia.
   - discriminate.
   - reflexivity.
   - discriminate.
